@@ -1,6 +1,8 @@
 package props
 
 import (
+	"encoding/json"
+	"strings"
 	"godsverif/core"
 )
 
@@ -203,6 +205,61 @@ func (m *KVMon[K, V]) Reload() {
 	if m.n() > 0 {
 		zk = m.Mod.Ents[m.c.R.Intn(m.n())].Key
 	}
+	m.after(zk, true)
+}
+
+// ReloadForeign loads a document that some other producer wrote: the live
+// string keys plus spellings of them that the comparator may or may not
+// identify (upper/lower case). Which spelling and value survive depends on the
+// loader (and on Go's map iteration order), so the model is re-read from the
+// container afterwards; what is checked is everything that must hold for ANY
+// outcome - the structure walkers (node count = Size(), shape), sortedness,
+// and all later calls against the resynchronised model.
+func (m *KVMon[K, V]) ReloadForeign() {
+	if _, ok := any(*new(K)).(string); !ok || m.A.JSON == nil || m.Inv != nil {
+		return
+	}
+	doc := map[string]V{}
+	for _, e := range m.Mod.Ents {
+		k := any(e.Key).(string)
+		doc[k] = e.Val
+		if m.c.R.Bool() {
+			doc[strings.ToUpper(k)] = e.Val
+		}
+		if m.c.R.Bool() {
+			doc[strings.ToLower(k)] = e.Val
+		}
+	}
+	data, err := json.Marshal(doc)
+	if err != nil {
+		return
+	}
+	m.c.Begin(m.A.Name, "FromJSON(foreign document)", string(data))
+	if m.A.Count != nil {
+		*m.A.Count = -1 << 40
+	}
+	err = m.A.JSON.FromJSON(data)
+	if err != nil {
+		m.resetCount()
+		m.c.Count("obs:reload-refused", 1)
+		return
+	}
+	// resynchronise the model with whatever the loader chose
+	m.Mod.Clear()
+	for _, k := range m.A.M.Keys() {
+		v, _ := m.A.M.Get(k)
+		m.Mod.Put(k, v)
+	}
+	m.resetCount()
+	m.c.Count("obs:reload-foreign-json", 1)
+	if sz := m.A.M.Size(); sz != m.n() {
+		m.c.Fail("size", "after-foreign-load", "%s.Size() = %d after FromJSON(%s), but Keys() lists %d distinct keys", m.A.Name, sz, data, m.n())
+	}
+	var zk K
+	if m.n() > 0 {
+		zk = m.Mod.Ents[0].Key
+	}
+	m.calls = 15
 	m.after(zk, true)
 }
 
